@@ -861,6 +861,12 @@ func (p *InlineParser) parseEndBracket(state *inlineState, start int) (end int) 
 			return start + 1
 		}
 
+		// The label may span multiple lines: advance the spans we're considering.
+		if i := nodeIndexForPosition(state.unparsed[state.unparsedPos:], label.span.End-1); i >= 0 {
+			state.unparsedPos += i
+		} else {
+			state.unparsedPos = len(state.unparsed)
+		}
 		linkNode := state.wrap(kind, state.stack[openDelimIndex].node, nil)
 		linkNode.children = append(linkNode.children, inlineLabel)
 		linkNode.span = Span{
